@@ -123,6 +123,11 @@ func vfH_upgrade_logic() {
 	if d2 == d1 {
 		d2 = 12 // the same dimension twice is the single-dimension case
 	}
+	if d2 != 12 {
+		// two dimensions varied: the valid default key is a fixed one (every key is
+		// covered by the single-dimension tier)
+		in.key = "dGhlIHNhbXBsZSBub25jZQ=="
+	}
 	for _, d := range []int{d1, d2} {
 		switch d {
 		case 0: // method
